@@ -192,6 +192,16 @@ def endings(code, status):
         ('syntax error in a [setup] instruction of the suite file given with --suite', conf + act,
          {'bad2.suite': '[setup]\nno-such-instruction x\n'}, ['--suite', 'bad2.suite'], ('access', 'SYNTAX_ERROR')),
     ]
+    # a failing [conf] instruction AFTER the status has been set (to any status, SKIP included): the conf phase fails, nothing
+    # else runs; and a failing one BEFORE a status line
+    es += [
+        ('conf-phase validation error after the status line', conf + '[conf]\nhome = does-not-exist-c02\n' + act, {}, [],
+         ('executed', 'VALIDATION_ERROR', False, None)),
+        ('conf-phase validation error (act-home) after the status line', conf + '[conf]\nact-home = does-not-exist-c02\n' + act, {}, [],
+         ('executed', 'VALIDATION_ERROR', False, None)),
+        ('conf-phase validation error before the status line', '[conf]\nhome = does-not-exist-c02\n' + conf + act, {}, [],
+         ('executed', 'VALIDATION_ERROR', False, None)),
+    ]
     if status != 'SKIP':
         es += [
             ('act phase syntax error', conf + '[act]\n"unterminated\n', {}, [], ('executed', 'SYNTAX_ERROR', False, None)),
